@@ -24,7 +24,7 @@ LEVEL = "fault_enumeration"
 RULE = (
     "(a) initial output file in {absent, empty, header only, header + row of s1, header + all rows, header + stale buffer with a claim} x session 1 (constructor + evaluate(s1) + evaluate(s2), optionally ending with its atexit callbacks) killed "
     "before operation k for every k (or not at all) x session 2 likewise x final complete session resubmitting all subjects (thorough: 3 subjects, 4 sessions); "
-    "(b) BFS over histories of operations {new A on d/x.tsv, new B on d/y.tsv, new C on e/x.tsv, restart A (new object on d/x.tsv without exit), X.evaluate(s1|s2), exit(X)} up to depth 6 (thorough 8) with state = file system contents + live aggregators; "
+    "(b) BFS over histories of operations {new A, new B (sibling in the same directory), new C, restart A (new object on A's file without exit), X.evaluate(s1|s2), exit(X)} for three file-naming schemes (x/y, study.fold1/study.fold2, model/model.v1.0/model_2) up to depth 6 (thorough 8) with state = file system contents + live aggregators; "
     "(c) every sequential history of length <= 3 replayed on a real temporary directory and on the in-memory file system (identical final bytes). "
     "non-trivial = a history in which at least one session was killed after its first write, or two aggregators are alive; distinct by (initial state, crash points) / explored state"
 )
@@ -163,7 +163,8 @@ def blocks(tier):
             n1 = 40 if tier == "quick" else 52
             for lo in range(0, n1, 4):
                 B.append(("crash", tier, init, subj, ex1, lo, lo + 4))
-    B.append(("hist", tier))
+    for scheme in SCHEMES:
+        B.append(("hist", tier, scheme))
     B.append(("envconf",))
     return B
 
@@ -177,7 +178,7 @@ def run_block(block, acc):
                 continue
             run_case({"kind": "crash", "tier": tier, "init": init, "subjects": list(subj), "exit1": ex1, "k1": k1 if k1 < n1 else None}, acc)
     elif block[0] == "hist":
-        run_case({"kind": "hist", "tier": block[1]}, acc)
+        run_case({"kind": "hist", "tier": block[1], "scheme": block[2]}, acc)
     else:
         run_case({"kind": "envconf"}, acc)
 
@@ -271,7 +272,12 @@ def run_case(case, acc):
 
 
 # ------------------------------------------------------------------------------------------------ histories (siblings)
-FILES = {"A": "/vfs/d/x.tsv", "B": "/vfs/d/y.tsv", "C": "/vfs/e/x.tsv"}
+SCHEMES = {
+    "plain": {"A": "/vfs/d/x.tsv", "B": "/vfs/d/y.tsv", "C": "/vfs/e/x.tsv"},
+    "dotted": {"A": "/vfs/d/study.fold1.tsv", "B": "/vfs/d/study.fold2.tsv", "C": "/vfs/e/study.fold1.tsv"},
+    "prefix": {"A": "/vfs/d/model.tsv", "B": "/vfs/d/model.v1.0.tsv", "C": "/vfs/d/model_2.tsv"},
+}
+FILES = dict(SCHEMES["plain"])
 
 
 def _ops():
@@ -336,7 +342,9 @@ def _enabled(hist):
 def _hist(case, acc):
     from collections import deque
 
-    acc.case("hist", case["tier"])
+    acc.case("hist", case["tier"], case.get("scheme", "plain"))
+    FILES.clear()
+    FILES.update(SCHEMES[case.get("scheme", "plain")])
     depth = 6 if case["tier"] == "quick" else 8
     if "history" in case:
         return _judge_history(acc, case, [tuple(o) for o in case["history"]])
@@ -359,11 +367,11 @@ def _hist(case, acc):
                 frontier.append(h2)
     acc.count("history_states", nstates)
     acc.count("history_transitions", ntrans)
-    acc.sample({"history_bfs": {"depth": depth, "states": nstates, "transitions": ntrans, "operations": [list(o) for o in _ops()]}})
+    acc.sample({"history_bfs": {"files": dict(FILES), "depth": depth, "states": nstates, "transitions": ntrans, "operations": [list(o) for o in _ops()]}})
 
 
 def _judge_history(acc, case, hist):
-    c2 = {"kind": "hist", "tier": case["tier"], "history": [list(o) for o in hist]}
+    c2 = {"kind": "hist", "tier": case["tier"], "scheme": case.get("scheme", "plain"), "history": [list(o) for o in hist]}
     tag = f"history {hist}"
     try:
         live, submitted = _replay_history(hist)
